@@ -985,6 +985,16 @@ func genWideObject(r *rand.Rand, c *tcfg, sb *strings.Builder, depth int) {
 		m, _ := ref.Unquote([]byte(lit), true)
 		ms[i] = mem{lit, m}
 	}
+	if c.invalid && c.dup > 0 && r.IntN(3) == 0 {
+		// names that differ only in ill-formed bytes versus a literal U+FFFD: equal or nearly equal under every
+		// reading, repeated many times with different values - whatever order a sort leaves them in must be stable
+		tied := []string{"\xff", "\xfe", "\ufffd", "\xc3", "a\xff", "a\xfe", "a\ufffd", "a\xffb", "a\ufffdb"}
+		for i := range ms {
+			lit := `"` + tied[r.IntN(len(tied))] + `"`
+			m, _ := ref.Unquote([]byte(lit), true)
+			ms[i] = mem{lit, m}
+		}
+	}
 	sort.SliceStable(ms, func(i, j int) bool { return ref.U16Less(ms[i].meaning, ms[j].meaning) })
 	switch r.IntN(4) {
 	case 0: // sorted
